@@ -333,3 +333,54 @@ func c06RunFilter(c *c06Case, dir string, upIsDir bool) ([]c06Obs, error) {
 	}
 	return res, nil
 }
+
+// ---------------------------------------------------------------- relay level
+// c06RunRelay plays the session through the output pump of a real TrzszRelay (NewTrzszRelay with its
+// goroutines): whether the relay enters a handshake on a chunk, and what it shows to the client, must
+// be what one persistent detector (the det-level run, which the model decides) says.  A handshake
+// that was started is ended by a refusing ACT from the client side, so that the relay is in standby
+// again for the next chunk.
+func c06RunRelay(c *c06Case, det []c06Obs) ([]c06Obs, error) {
+	cliIn := &c06Pipe{ch: make(chan []byte, 4)}
+	srvOut := &c06Pipe{ch: make(chan []byte, 4)}
+	cliOut, srvIn := &c06Sink{}, &c06Sink{}
+	r := NewTrzszRelay(cliIn, cliOut, srvIn, srvOut, TrzszOptions{})
+	res := make([]c06Obs, len(c.Steps))
+	refuse := []byte("#ACT:" + encodeString(`{"lang":"go","version":"1.1.8","confirm":false,"newline":"\n","protocol":4}`) + "\n")
+	for i, st := range c.Steps {
+		res[i] = det[i]
+		off := cliOut.Len()
+		srvOut.ch <- append([]byte(nil), st.Raw...)
+		want := len(det[i].Out)
+		ok := c06WaitUntil(5*time.Second, func() bool {
+			return r.relayStatus.Load() == kRelayHandshaking || (cliOut.Len()-off >= want && srvOut.entered.Load() >= int64(i+2))
+		})
+		fired := r.relayStatus.Load() == kRelayHandshaking
+		if !ok && !fired {
+			return nil, fmt.Errorf("relay level: step %d: the output pump did not deliver the chunk", i)
+		}
+		if fired {
+			// what was shown arrives right after the status store; then refuse the transfer
+			c06WaitUntil(2*time.Second, func() bool { return cliOut.Len()-off >= want })
+			if tg := r.trigger; tg != nil && tg.winServer { // a Windows server: the client frames its lines with "!\n"
+				cliIn.ch <- append(append([]byte(nil), refuse[:len(refuse)-1]...), '!', '\n')
+			} else {
+				cliIn.ch <- refuse
+			}
+			if !c06WaitUntil(10*time.Second, func() bool { return r.relayStatus.Load() == kRelayStandBy }) {
+				return nil, fmt.Errorf("relay level: step %d: the relay did not return to standby after a refused handshake", i)
+			}
+		}
+		out := cliOut.From(off)
+		if len(out) > want && want >= 0 { // whatever the refused handshake flushed afterwards is not this chunk's image
+			out = out[:want]
+		}
+		res[i].Fired = fired
+		res[i].Out = out
+		res[i].Shown = c06ShownClass(st.Raw, out)
+		if !fired {
+			res[i].Mode, res[i].Ver, res[i].Ts, res[i].Sfx, res[i].Port = "", "", "", "", 0
+		}
+	}
+	return res, nil
+}
